@@ -3,12 +3,15 @@
    digests in the order of the model's walk. *)
 From Coq Require Import List Arith Bool.
 From Verif Require Import Model.C09_Import.
+From Coq Require String.
+From Verif Require Model.C15_Ref Proofs.C09t.
 Import ListNotations.
 
 Inductive case :=
 | CImp (es : list entry) (lok : bool) (ix : list (nat * cls * nat)) (cont : list (nat * node)) (dk : list dimg) (empty : nat)
        (q : sel) (bp mp : list nat) (obs : option (list ev))
-| CExp (cont : list (nat * node)) (root : nat) (order : list nat).
+| CExp (cont : list (nat * node)) (root : nat) (order : list nat)
+| CTag (ref_text repo_tag_obs : String.string).   (* export reference (a registry reference) and the RepoTags entry written *)
 
 Fixpoint lookup (t : list (nat * node)) (d : nat) : node :=
   match t with [] => NBlob | (k, v) :: t' => if Nat.eqb k d then v else lookup t' d end.
@@ -37,6 +40,11 @@ Definition check (c : case) : bool :=
       | _, _ => false
       end
   | CExp cont root order => nats_eqb (export (length cont + 2) (lookup cont) [] (XMan root)) order
+  | CTag rt obs =>
+      match C15_Ref.parse (C15_Ref.of_string rt) with
+      | Some r => C15_Ref.str_eqb (C09t.repo_tag r) (C15_Ref.of_string obs)
+      | None => false
+      end
   end.
 
 Fixpoint mismatches_from (i : nat) (cs : list case) : list nat :=
